@@ -262,6 +262,10 @@ class QuantityMachine(Machine):
         r = rng.random()
         a = self._pick(rng)
         fam = self.pool[a]["fam"]
+        if rng.random() < 0.05:
+            # a quantity built from another one: Quantity(x, q) and Quantity(x, q.units())
+            return {"op": "new_from", "a": a, "x": rng.choice([1, 2, 2.5, -3]),
+                    "how": rng.choice(["quantity", "units"])}
         if r < 0.30:
             b = self._pick(rng, fam)
             name = rng.choice(["add", "sub", "add", "sub", "mul", "truediv", "eq"])
@@ -297,7 +301,7 @@ class QuantityMachine(Machine):
             op = self._gen_inplace(rng, a)
         # results alias their operands only visibly after a later in-place operation:
         # follow up with one on the newest member or on an operand
-        if op["op"] in ("bin", "num", "pow", "neg", "np", "getitem") and \
+        if op["op"] in ("bin", "num", "pow", "neg", "np", "getitem", "new_from") and \
                 rng.random() < cfg["p_follow_inplace"]:
             who = rng.choice(["result", "a", "b"])
             self.queue.append({"op": "follow", "who": who, "of": op,
@@ -508,7 +512,11 @@ class QuantityMachine(Machine):
                 q = Quantity(v, op["unit"], **kw)
             except Exception as e:
                 return "new_failed", type(e).__name__
-            self._add(q, op.get("fam"))
+            k = self._add(q, op.get("fam"))
+            if isinstance(v, np.ndarray):
+                # the caller keeps its array: nothing done to the quantity may change it
+                self.pool[k]["src"] = v
+                self.pool[k]["src0"] = v.copy()
             return "new", [op["unit"], op["kind"]]
         if not self.pool:
             return "skip", None
@@ -544,6 +552,11 @@ class QuantityMachine(Machine):
                         n, d = p[1:].split(":")
                         p = Fraction(int(n), int(d))
                     result = a ** p
+                elif kind == "new_from":
+                    a = self._slot(op["a"])["q"]
+                    what = "new_from:" + op["how"]
+                    result = Quantity(op["x"], a) if op["how"] == "quantity" else \
+                        Quantity(op["x"], a.units())
                 elif kind == "neg":
                     result = -self._slot(op["a"])["q"]
                 elif kind == "getitem":
@@ -621,11 +634,18 @@ class QuantityMachine(Machine):
                      "before": show(before[i]) + list(before[i][3:]),
                      "after": show(after) + list(after[3:])},
                     signature=f"C07/changed/{what}/role={roles}/{relation}")
+        for i, e in enumerate(self.pool):
+            if "src" in e and not np.array_equal(e["src"], e["src0"], equal_nan=True):
+                raise Violation("callers_array_changed",
+                                {"operation": what, "member": i,
+                                 "before": np.array2string(e["src0"]),
+                                 "after": np.array2string(e["src"])},
+                                signature=f"C07/caller_array/{what}")
         if self.inplace_seen and len(self.pool) >= 2:
             self.nontrivial = True
         if isinstance(result, Quantity):
             fam = None
-            if kind in ("neg", "getitem") or (kind in ("bin", "num") and
+            if kind in ("neg", "getitem", "new_from") or (kind in ("bin", "num") and
                                               op["name"] in ("add", "sub", "radd", "rsub")):
                 fam = self._slot(op["a"])["fam"]
             elif kind == "np" and op["name"] in ("abs", "absolute", "round", "floor", "ceil",
